@@ -121,6 +121,26 @@ def seqStep (st : SeqState) (line : String) : SeqState × String :=
   | [_, "sleep", _] => (st, "ok")      -- the harness lets real time pass; nothing else happens
   | [_, "flushBegin"] => (st, "ok")    -- `flush()` called on a helper thread; it runs its cycle once no other is in progress
   | [_, "evNew", _, _, _] => (st, "ok") -- `Event::new(..)`: a value, no tracing call
+  -- deprecated `Event::add_to_parent(name, &span, closure)` / `Event::add_to_local_parent(name, closure)`: the closure is
+  -- evaluated, and the event attached, only when the target is recording
+  | [t, "evToParent", v, n, cl] =>
+    match t.toNat?, strOfHex n, parseClosure cl with
+    | some t, some n, some cl =>
+      match assocGet st.sys.spans v with
+      | none => (st, "bad-op unknown span")
+      | some none => (st, "cl 0")
+      | some (some _) =>
+        let (sys, _) := exec (st.sys.runClosure t cl) t (.addEvent v n (some cl.kvs))
+        ({ st with sys := sys }, "cl 1")
+    | _, _, _ => (st, "bad-op parse")
+  | [t, "evToLocal", n, cl] =>
+    match t.toNat?, strOfHex n, parseClosure cl with
+    | some t, some n, some cl =>
+      if (st.sys.th t).stack.isSampled then
+        let (sys, _) := exec (st.sys.runClosure t cl) t (.lAddEvent n (some cl.kvs))
+        ({ st with sys := sys }, "cl 1")
+      else (st, "cl 0")
+    | _, _, _ => (st, "bad-op parse")
   -- the span name is a user value whose conversion enters and drops a `LocalSpan` first (user code run by the call)
   | [t, "localEnterRe", n] =>
     match t.toNat?, strOfHex n with
@@ -178,6 +198,8 @@ def offStep (line : String) : String :=
   | [_, "evNew", _, _, _] => "ok"
   | [_, "localEnterRe", _] => "ok"
   | [_, "childLocalRe", _, _] => "ok"
+  | [_, "evToParent", _, _, _] => "cl 0"
+  | [_, "evToLocal", _, _] => "cl 0"
   | _ :: rest =>
     match parseOp rest with
     | some op => showObs 0 (execOff op)
